@@ -1795,6 +1795,11 @@ int QSexact_solver (mpq_QSdata * p_mpq,
 		mpf_QSfree_prob (p_mpf);
 		p_mpf = 0;
 	}
+	/* all precisions have been tried: an optimal/infeasible status left behind
+	 * by QSexact_basis_status was never confirmed by an exact test and no
+	 * solution was handed back to the caller, so it must not be reported */
+	if (*status == QS_LP_OPTIMAL || *status == QS_LP_INFEASIBLE)
+		*status = QS_LP_UNSOLVED;
 	/* ending */
 CLEANUP:
 	QSX_TRACE ("exit", rval, *status, 0, 0, 0, 0, basis);
